@@ -26,7 +26,9 @@ func (r *yieldRewriter) rewriteRanges(block *ast.BlockStmt) {
 	astutil.Apply(block, nil, func(c *astutil.Cursor) bool {
 		switch n := c.Node().(type) {
 		case *ast.RangeStmt:
+			handled := false
 			do := func(ctor string, arg ast.Expr) {
+				handled = true
 				factory := r.SeqSelect(ctor)
 				iter := X.Call(factory, arg)
 				init, forStmt := r.rewriteRangeToForIter(n, iter)
@@ -58,8 +60,18 @@ func (r *yieldRewriter) rewriteRanges(block *ast.BlockStmt) {
 				do(cstNewMapIter, n.X)
 			case *types.Chan:
 				do(cstNewChanIter, n.X)
+			case *types.Pointer:
+				// range over pointer to array: iterates the array pointed to (no copy)
+				if _, ok := ty.Elem().Underlying().(*types.Array); ok {
+					do(cstNewSliceIter, &ast.SliceExpr{X: n.X})
+				}
 			case *types.Signature:
 				panic("implement me: range func")
+			}
+			// a range kind left as native range cannot yield from its body:
+			// the yield would silently become a no-op
+			if !handled {
+				r.assert(r.mustNoYield(n.Body), n, "yield in range over %s not supported", ty)
 			}
 		}
 		return true
